@@ -97,8 +97,8 @@ theorem elabTy_nil : ∀ (p : Path) (t : FTy), elabTy [] t p = p := by
 
 /-! ### value-directed elaboration is the identity on explicit, interface-free source paths -/
 
-theorem unstore_ne_any {t : FTy} (h : t ≠ .any) (v : FVal) : unstore t v = some (t, v) := by
-  simp [unstore, h]
+theorem unstore_ne_any {t : FTy} (h : isIface t = false) (v : FVal) : unstore t v = some (t, v) :=
+  unstore_not_iface h v
 
 theorem takeFrom_single (f : TakeFacts) (a : Taken) (via : Bool) (s : Seg) :
     takeFrom f a via [s] =
@@ -153,7 +153,8 @@ theorem elabVal_fix (e : Emb) (f : TakeFacts) : ∀ (p : Path) (t pf : FTy) (v :
     intro t pf v h hne
     have hstruct : ∀ (fs : FFields), structOf t = some fs → (∀ el, t ≠ .map el) → t ≠ .any →
         elabVal e f (unstore t v) (s :: r) = s :: r := by
-      intro fs hst hnm hna
+      intro fs hst hnm hna'
+      have hna : isIface t = false := by cases t <;> simp [structOf] at hst <;> rfl
       cases hf : fieldTy fs s with
       | none => rw [extractTy_struct_none t fs s r hst hf] at h; simp at h
       | some ft =>
@@ -181,13 +182,16 @@ theorem elabVal_fix (e : Emb) (f : TakeFacts) : ∀ (p : Path) (t pf : FTy) (v :
           exact ih st pf x h' hne
     cases t with
     | any =>
-      simp only [extractTy, structOf] at h
+      simp only [extractTy, structOf, isIface] at h
       by_cases hr : r.isEmpty = true
       · simp [hr] at h; exact absurd h.symm hne
       · simp [hr] at h
+    | iface n is =>
+      simp only [extractTy, structOf, isIface] at h
+      by_cases hr : r.isEmpty = true <;> simp [hr] at h
     | map el =>
       simp only [extractTy] at h
-      rw [unstore_ne_any (by simp)]
+      rw [unstore_ne_any rfl]
       cases v with
       | map kvs =>
         cases hl : kvs.lookup s with
@@ -199,16 +203,16 @@ theorem elabVal_fix (e : Emb) (f : TakeFacts) : ∀ (p : Path) (t pf : FTy) (v :
       cases t' with
       | struct n fs => exact hstruct fs rfl (by simp) (by simp)
       | _ =>
-        simp only [extractTy, structOf] at h
+        simp only [extractTy, structOf, isIface] at h
         by_cases hr : r.isEmpty = true <;> simp [hr] at h
     | str =>
-      simp only [extractTy, structOf] at h
+      simp only [extractTy, structOf, isIface] at h
       by_cases hr : r.isEmpty = true <;> simp [hr] at h
     | int =>
-      simp only [extractTy, structOf] at h
+      simp only [extractTy, structOf, isIface] at h
       by_cases hr : r.isEmpty = true <;> simp [hr] at h
     | opq k n =>
-      simp only [extractTy, structOf] at h
+      simp only [extractTy, structOf, isIface] at h
       by_cases hr : r.isEmpty = true <;> simp [hr] at h
 
 theorem elabVal_nil (f : TakeFacts) : ∀ (p : Path) (a : Taken), elabVal [] f a p = p := by
@@ -254,7 +258,7 @@ theorem assign_of_validated_R (f : TakeFacts) (pt st : FTy) (v : FVal) (m : Mapp
     (hp' : ∀ pf, extractTy true pt m.src = some (pf, false) → pf ≠ .any → p' = m.src)
     (ht : take f pt v p' = .ok a) (hc : runtimeCheck chk a = true) (d : FVal) :
     (assign st d m.dst a).isSome := by
-  simp only [validateOne, Expected.C15.validate] at hv
+  simp only [validateOne, extractTyF_expected] at hv
   cases hp : extractTy true pt m.src with
   | none => simp [hp] at hv
   | some pfi =>
@@ -264,8 +268,19 @@ theorem assign_of_validated_R (f : TakeFacts) (pt st : FTy) (v : FVal) (m : Mapp
     | some sfi =>
       obtain ⟨sf, sI⟩ := sfi
       simp only [hp, hs] at hv
-      rw [assign_isSome, extractTy_slotTy _ _ _ _ hs]
+      have hslot : slotTy st m.dst = some sf := by
+        refine extractTy_slotTy _ _ _ _ hs (fun hsI => ?_)
+        subst hsI
+        by_cases hsf : sf = .any
+        · exact hsf
+        · simp [hsf] at hv
+      rw [assign_isSome, hslot]
       simp only []
+      have hchk : ∀ strict, runtimeCheck (some (sf, strict)) a = true → (store sf a).isSome := by
+        intro strict hc'
+        cases a with
+        | none => simp only [runtimeCheck] at hc'; simp [store, hc']
+        | some x => obtain ⟨ty, w⟩ := x; simp only [runtimeCheck] at hc'; simp [store, hc']
       by_cases hsI : sI = true
       · simp only [hsI, if_true] at hv
         by_cases hsf : sf = .any
@@ -275,9 +290,7 @@ theorem assign_of_validated_R (f : TakeFacts) (pt st : FTy) (v : FVal) (m : Mapp
         by_cases hpI : pI = true
         · simp only [hpI, if_true, Option.some.injEq] at hv
           subst hv
-          cases a with
-          | none => simp only [runtimeCheck] at hc; simp [store, hc]
-          | some x => obtain ⟨ty, w⟩ := x; simp only [runtimeCheck] at hc; simp [store, hc]
+          exact hchk _ hc
         · simp only [hpI, if_false, Bool.false_eq_true] at hv
           have hpI' : pI = false := by simpa using hpI
           subst hpI'
@@ -288,18 +301,36 @@ theorem assign_of_validated_R (f : TakeFacts) (pt st : FTy) (v : FVal) (m : Mapp
             · subst h2; exact store_any a
             · have hpe := hp' sf hp h2
               subst hpe
-              obtain ⟨w, hw⟩ := takeFrom_tag f m.src pt sf v false a hp h2 ht
-              subst hw
-              simp [store, assignable]
+              exact takeFrom_storable f m.src pt sf v false a hp ht
           · by_cases h2 : sf = .any
             · subst h2; exact store_any a
-            · by_cases h3 : pf = .any
-              · simp only [h1, h2, h3, if_false, if_true, Option.some.injEq] at hv
-                subst hv
-                cases a with
-                | none => simp only [runtimeCheck] at hc; simp [store, hc]
-                | some x => obtain ⟨ty, w⟩ := x; simp only [runtimeCheck] at hc; simp [store, hc]
-              · simp [h1, h2, h3] at hv
+            · by_cases h4 : implements pf sf = true
+              · have hpi : isIface pf = false := by
+                  cases sf <;> simp [implements] at h4
+                  exact h4.1
+                have hpa : pf ≠ .any := by intro hh; subst hh; simp [isIface] at hpi
+                have hpe := hp' pf hp hpa
+                subst hpe
+                obtain ⟨w, hw⟩ := takeFrom_tag f m.src pt pf v false a hp hpi ht
+                subst hw
+                simp [store, assignable, h4]
+              · by_cases h3 : pf = .any
+                · subst h3
+                  simp only [h1, h2, h4, if_false, if_true, Option.some.injEq, Bool.false_eq_true] at hv
+                  subst hv
+                  exact hchk _ hc
+                · by_cases h5 : isIface pf = true ∧ implements sf pf = true
+                  · simp only [h1, h2, h3, h4, h5.1, h5.2, if_false, if_true, Option.some.injEq, Bool.false_eq_true] at hv
+                    subst hv
+                    exact hchk _ hc
+                  · simp only [h1, h2, h3, h4, if_false, Bool.false_eq_true] at hv
+                    by_cases h6 : isIface pf = true
+                    · have h7 : implements sf pf = false := by
+                        cases h8 : implements sf pf
+                        · rfl
+                        · exact absurd ⟨h6, h8⟩ h5
+                      simp [h6, h7] at hv
+                    · simp [h6] at hv
 
 theorem fieldMapR_ok (f : TakeFacts) (allow : Bool) (pt : FTy) (v : FVal) (rp : Mapping → Path) :
     ∀ (ms : List Mapping) (l : List (Mapping × Taken)), fieldMapR f allow pt v rp ms = .ok l →
